@@ -140,7 +140,7 @@ def run(tier, seed):
     ck.extra["negative_controls_rejected"] = ["HmmCache/" + v for v in CACHE_VARIANTS]
 
     # 2. design model of the algorithms against the path-enumeration definition
-    inv = "ModelOk InRange ForwardIsDefinition DerivativesAreDefinition ExponentFactorsOut ChunksCoverSites PosteriorIsDefinition PosteriorsSumToOne"
+    inv = "ModelOk InRange ForwardIsDefinition DerivativesAreDefinition ExponentFactorsOut UninformativeIsOne ChunksCoverSites PosteriorIsDefinition PosteriorsSumToOne"
     configs = [("n2", 2, 3, 2, [1, 2])] if quick else [("n2q", 2, 3, 4, [1, 2]), ("n3", 3, 2, 2, [1, 2]), ("n2len4", 2, 4, 2, [1, 2])]
     for name, n, ml, dp, ev in configs:
         cfg = os.path.join(wd, "exact_%s.cfg" % name)
